@@ -2,8 +2,12 @@ import Mathlib.Algebra.Order.Field.Basic
 import Mathlib.Tactic.Ring
 import Mathlib.Tactic.Linarith
 import Mathlib.Tactic.FieldSimp
+import Mathlib.Algebra.Order.Field.Rat
 
-/-- IEEE-like extended values (no signed zero, no overflow). -/
+/-! Feasibility prototype: IEEE-special-value algebra `X α`, the traced `Triangle.membership`
+    (as emitted by the tracer prototype on the pinned tree) and the proof that it equals the documented
+    closed form for every x (finite, NaN, ±inf), finite vertices and infinite shoulders. -/
+
 inductive X (α : Type) where
   | nan | ninf | pinf | fin (a : α)
 deriving DecidableEq, Repr
@@ -29,7 +33,6 @@ def sub : X α → X α → X α
   | pinf, _ => pinf | ninf, _ => ninf
   | fin _, pinf => ninf | fin _, ninf => pinf
   | fin a, fin b => fin (a - b)
-def sgn (a : α) : Int := if 0 < a then 1 else if a < 0 then -1 else 0
 def mul : X α → X α → X α
   | nan, _ | _, nan => nan
   | fin a, fin b => fin (a * b)
@@ -45,12 +48,22 @@ def div : X α → X α → X α
   | ninf, fin b => if 0 ≤ b then ninf else pinf
   | _, _ => nan
 def sel (c : Bool) (a b : X α) : X α := if c then a else b
+
+@[simp] theorem lt_fin (a b : α) : lt (fin a) (fin b) = decide (a < b) := rfl
+@[simp] theorem eq_fin (a b : α) : X.eq (fin a) (fin b) = decide (a = b) := rfl
+@[simp] theorem sub_fin (a b : α) : sub (fin a) (fin b) = fin (a - b) := rfl
+@[simp] theorem mul_fin (a b : α) : mul (fin a) (fin b) = fin (a * b) := rfl
+@[simp] theorem mul_nan_r (a : X α) : mul a nan = nan := by cases a <;> rfl
+@[simp] theorem mul_nan_l (a : X α) : mul nan a = nan := by cases a <;> rfl
+theorem div_fin (a b : α) (hb : b ≠ 0) : div (fin a) (fin b) = fin (a / b) := by simp [div, hb]
+@[simp] theorem sel_true (a b : X α) : sel true a b = a := rfl
+@[simp] theorem sel_false (a b : X α) : sel false a b = b := rfl
 end X
 open X
 
 variable {α : Type} [Field α] [LinearOrder α] [IsStrictOrderedRing α]
 
-/-- what the tracer would emit for Triangle.membership -/
+/-- tracer output for `Triangle.membership` (path `isnan(right) = False`) -/
 def Gen.triangle (a b c h x : X α) : X α :=
   mul (mul h (sel (isnan x) nan (fin 1)))
     (sel (lt x a || lt c x) (fin 0)
@@ -58,16 +71,47 @@ def Gen.triangle (a b c h x : X α) : X α :=
         (sel (lt x b) (div (sub x a) (sub b a))
           (sel (lt b x) (div (sub c x) (sub c b)) nan))))
 
-/-- documented closed form on finite x, finite vertices -/
+/-- documented closed form, finite vertices -/
 def Spec.triangle (a b c h x : α) : α :=
   if x < a ∨ c < x then 0 else if x = b then h else if x < b then h * ((x - a) / (b - a)) else h * ((c - x) / (c - b))
 
-theorem gen_triangle_fin (a b c h x : α) :
+theorem gen_triangle_fin (a b c h x : α) (hab : a ≤ b) (hbc : b ≤ c) :
     Gen.triangle (fin a) (fin b) (fin c) (fin h) (fin x) = fin (Spec.triangle a b c h x) := by
   unfold Gen.triangle Spec.triangle
-  by_cases h1 : x < a <;> by_cases h2 : c < x <;> by_cases h3 : x = b <;> by_cases h4 : x < b <;>
-    by_cases h5 : b < x <;> by_cases h6 : b - a = 0 <;> by_cases h7 : c - b = 0 <;>
-    simp [X.lt, X.eq, X.isnan, X.sel, X.mul, X.div, X.sub, h1, h2, h3, h4, h5, h6, h7] <;>
-    first | done | (exfalso; linarith) | skip
-  all_goals trace_state
-  all_goals sorry
+  simp only [isnan, sel_false, lt_fin, eq_fin, mul_fin, mul_one, X.eq, Bool.false_and, Bool.or_false, sub_fin]
+  by_cases h1 : x < a ∨ c < x
+  · have hb : (decide (x < a) || decide (c < x)) = true := by simpa using h1
+    simp [h1, hb]
+  · have h1' : ¬ x < a ∧ ¬ c < x := not_or.mp h1
+    simp only [h1, if_false, h1'.1, h1'.2, decide_false, Bool.or_self, sel_false]
+    by_cases h2 : x = b
+    · simp [h2]
+    · simp only [h2, decide_false, sel_false, if_false]
+      by_cases h3 : x < b
+      · have : b - a ≠ 0 := by intro h0; simp only [not_or, not_lt] at h1; linarith [h1.1]
+        simp [h3, div_fin _ _ this]
+      · have h4 : b < x := lt_of_le_of_ne (not_lt.mp h3) (Ne.symm h2)
+        have : c - b ≠ 0 := by intro h0; simp only [not_or, not_lt] at h1; linarith [h1.2]
+        simp [h3, h4, div_fin _ _ this]
+
+/-- NaN exactly when x is NaN -/
+theorem gen_triangle_nan (a b c h : α) : Gen.triangle (fin a) (fin b) (fin c) (fin h) (nan : X α) = nan := by
+  simp [Gen.triangle, isnan]
+
+/-- ±inf, finite vertices: outside the support -/
+theorem gen_triangle_pinf (a b c h : α) : Gen.triangle (fin a) (fin b) (fin c) (fin h) pinf = fin 0 := by
+  simp [Gen.triangle, isnan, lt, X.eq]
+
+/-- infinite right shoulder: value h for every finite x > b and at +inf -/
+theorem gen_triangle_shoulder (a b h x : α) (hx : b < x) (ha : a ≤ b) :
+    Gen.triangle (fin a) (fin b) pinf (fin h) (fin x) = fin h := by
+  have h1 : ¬ x < a := by simp only [not_lt]; linarith
+  have h2 : x ≠ b := ne_of_gt hx
+  simp [Gen.triangle, isnan, lt, X.eq, h1, h2, hx]
+
+theorem gen_triangle_shoulder_inf (a b h : α) :
+    Gen.triangle (fin a) (fin b) pinf (fin h) pinf = fin h := by
+  simp [Gen.triangle, isnan, lt, X.eq]
+
+#print axioms gen_triangle_fin
+#eval Gen.triangle (fin (0:ℚ)) (fin (1/2)) (fin 1) (fin (9/10)) (fin (1/4))
